@@ -44,6 +44,46 @@ DESC = {
  "C19-m2": ("recompute_heap.rs set_max_height_allowed: height_lower_bound reset to queues.len()", "var.set on a needed var, then set_max_height_allowed, then stabilise"),
  "C20-m1": ("src/state.rs within_scope: early return for Scope::Top", "memo created at top level, first request for a key from inside a bind closure, node also held outside, bind re-runs"),
  "C20-m2": ("src/public.rs weak_memoize_fn: entry().or_insert_with keeps a dead entry", "request key, drop all references, request again before any stabilise, request once more"),
+ "C01-m3": ("src/recompute_heap.rs unlink: height_lower_bound raised past lower non-empty queues (>= instead of ==)", "one stabilise: a bind switches away from (or invalidates) a queued multi-input rhs node that is alone at its height while a lower multi-input node is still queued"),
+ "C01-m4": ("src/node.rs became_necessary: staleness decided by the last re-linked child only", "multi-input node (map2..6, fold, zip) unobserved; a non-last input changes while another observer keeps it alive; node observed again"),
+ "C02-m3": ("src/recompute_heap.rs increase_height: early return when the node is the only one queued (stays in its old queue)", "m = map2(bind main, x); x written then the bind's input; bind switches to an already-needed taller node; nothing else queued"),
+ "C02-m4": ("src/node.rs maybe_change_value_manual: direct-recompute decision taken before the other parents are queued", "diamond whose join is the first-linked parent of the shared input (c.map2(&c.map(f), g)); nothing lower pending"),
+ "C03-m3": ("src/node.rs recompute BindLhsChange: propagate_invalidity() after invalidate_nodes_created_on_rhs removed", "bind-created node with a needed dependant built outside the bind (escaped handle + top-level map); bind input changes"),
+ "C03-m4": ("src/node.rs invalidate_node: is_valid cleared before the BindMain block (same mechanism as C03-m1)", "nested binds, node of the inner closure observed from outside, outer input changes"),
+ "C04-m3": ("src/internal_observer.rs disallow_future_use (InUse): clears the handler table at once", "a subscription's own handler disallows its observer (or drops its last handle): RefCell already borrowed"),
+ "C04-m4": ("src/node.rs remove_parent: swapped-in parent's child-index entry not updated", "node with >= 3 needed parents, a middle one knowing it under another child index (map2 second input / bind rhs); middle parent unlinked first, then an earlier one"),
+ "C05-m3": ("src/state.rs unlink_disallowed_observers: check_if_unnecessary at most once per node per batch (after the first observer)", "two distinct observers of one node dropped between the same two stabilises; later write"),
+ "C05-m4": ("src/node.rs is_necessary: force_necessary disjunct dropped", "bind switches to a node built on the node it returned before; later the last observer goes; later write"),
+ "C06-m3": ("src/incr.rs set_cutoff: early return for Cutoff::PartialEq (keeps the previous cutoff)", "node given a non-default cutoff, then reset to PartialEq, then a write on which the two disagree"),
+ "C06-m4": ("src/var.rs set_var_stabilise_end: deferred write dropped when equal to the current value", "var with Never / non-suppressing cutoff; equal value written from a node function during stabilise"),
+ "C07-m3": ("src/internal_observer.rs try_get_value while Stabilising: value handed out unless the node is queued or stale", "observer read from inside a node function; observed node >= 2 levels above the written var or already recomputed"),
+ "C07-m4": ("src/state.rs stabilise_end: extra add_new_observers() after the handlers", "observer created inside a node function / handler during stabilise and read before the next stabilise"),
+ "C08-m3": ("src/var.rs Var::update while stabilising: mem::take instead of clone (same as C07-m1)", "update() from a node function; watch node computed later in the same stabilise"),
+ "C08-m4": ("src/state.rs stabilise_end: handlers run before the deferred writes are applied", "same var written from a node function and from a subscribe handler in one stabilise"),
+ "C09-m3": ("src/node_update.rs transition table: (Invalidated, Invalidated) falls through and is delivered again", "subscribed bind-created node invalidated; later another subscription/observer added to the same invalid node"),
+ "C09-m4": ("src/state.rs add_new_observers + src/public.rs try_subscribe (two cooperating edits): node not queued for handlers", "subscription on a not yet stabilised observer of an already needed, unchanged node without other handlers: Initialised never delivered"),
+ "C10-m3": ("src/internal_observer.rs subscribe: Disallowed treated like InUse", "disallow_future_use, then try_subscribe on the same observer before the next stabilise: returns Ok"),
+ "C10-m4": ("src/public.rs Observer::unsubscribe: fast path Ok(()) when the observer is disallowed, before the token check", "foreign token passed to an already disallowed observer (handle still held): Ok instead of Mismatch"),
+ "C11-m3": ("src/recompute_heap.rs set_max_height_allowed: height_lower_bound reset (same as C19-m2)", "var.set; set_max_height_allowed; stabilise"),
+ "C11-m4": ("src/internal_observer.rs unsubscribe: decrement also in state Created (same as C10-m2)", "subscribe then unsubscribe before the observer's first stabilise"),
+ "C12-m3": ("src/public.rs weak_memoize_fn: closure captures a strong IncrState", "memoised function owned by a node closure that is still observed when the last IncrState handle is dropped"),
+ "C12-m4": ("src/node.rs expert_remove_dependency: pop_child_edge only when the expert node is necessary", "expert join unneeded while its dependency-swapping child is needed by another route; dependency swapped; old child loses its handles"),
+ "C13-m3": ("src/var.rs break_rc_cycle: flushes a parked write (state.upgrade().unwrap())", "propagation-time panic with a parked deferred write; dropping the var / state afterwards panics again"),
+ "C13-m4": ("src/state.rs stabilise entry guard only refuses Stabilising (same as C13-m1 / C19-m4)", "panic in an update handler, then stabilise again"),
+ "C14-m3": ("src/node.rs expert_add_dependency: explicit recompute-heap insert removed", "needed expert node that already ran gains a dependency on an unchanged, previously computed child; nothing else queues it"),
+ "C14-m4": ("src/kind/expert.rs make_stale: AlreadyStale also when will_fire_all_callbacks is set", "unobserve, re-observe with nothing changed, then make_stale; or make_stale while unobserved"),
+ "C15-m3": ("incremental-map lib.rs UnorderedFold::update default: add(new) before remove(old)", "fold without update closure over a non-commutative (key-indexed) accumulator; value of an existing key changes"),
+ "C15-m4": ("incr_merge (btree_map.rs, im_rc.rs): output key kept when f starts returning None", "filtering merge function; a key's result goes from Some to None while still in an input"),
+ "C16-m3": ("btree_map.rs incr_filter_mapi_ Right branch: per-key node returns the value the key was added with on its first run", "per-key function does not read its input in the round the key is added; value changes before it is first demanded"),
+ "C16-m4": ("im_rc.rs incr_filter_mapi_ordmap Unequal branch: no make_stale when the cutoff would swallow the change", "OrdMap _cutoff variant with a cutoff coarser than equality; swallowed change, then another dependency changes"),
+ "C17-m3": ("incremental-map lib.rs incr_filter_mapi early-out also for a one-key input", "input shrinks from >= 2 keys to exactly one untouched key: f re-run for the survivor"),
+ "C17-m4": ("incr_(filter_)mapi_ (both map types): lhs_change returns a removed-keys counter", "a key is removed while others remain: every surviving per-key node recomputes (visible under Cutoff::Never / stats)"),
+ "C18-m3": ("im_rc.rs OrdMap::symmetric_fold: 'other is empty' fast path iterates the wrong map", "non-empty OrdMap folded against an empty one"),
+ "C18-m4": ("symmetric_fold.rs BTreeMap fold: disjoint-ranges shortcut uses <= instead of <", "largest key of one map equals the smallest key of the other: Left+Right instead of Unequal / nothing"),
+ "C19-m3": ("adjust_heights: bind-to-rhs-node link bypasses the cycle check", "two-bind cycle closed through a scope link (node created inside the downstream bind returned by an upstream bind): 'too large height' instead of 'cyclic'"),
+ "C19-m4": ("src/state.rs stabilise entry guard only refuses Stabilising", "stabilise called from a subscribe / on_update handler with pending work: runs instead of panicking at once"),
+ "C20-m3": ("src/public.rs weak_memoize_fn: entry().or_insert_with (same as C20-m2)", "request key, drop all references, request again before a stabilise, request again"),
+ "C20-m4": ("src/state.rs within_scope: early return when the *current* scope is Top", "memoised function created inside a bind closure and handed out; a missing key requested from top level; creation-scope bind re-runs"),
 }
 rows = []
 for name in sorted(os.listdir(S)):
@@ -71,7 +111,7 @@ for name in sorted(os.listdir(S)):
     what, needs = DESC.get(name, ("", ""))
     meta = {
         "name": name, "property": prop, "change": what, "needs_to_manifest": needs,
-        "source": "independent sub-agent given only the property text and a scratch worktree",
+        "source": "independent sub-agent given only the property text and a scratch worktree" + (" (second round: plus a focus area per mutant)" if name[-1] in "34" else ""),
         "confirmed": bool(m and m.group(1) == "0" and m.group(2) == "0" and m.group(3) != "0"),
         "what_i_ran": [
             "tools/seed_confirm.sh: scratch worktree of /repo; clean tree: cargo test --test seed_demo passes; patch applied: cargo test --workspace --no-fail-fast --offline passes, seed_demo fails (see confirm.log)",
